@@ -149,7 +149,10 @@ def seams(env):
 
     import scipy.sparse.linalg as sla
 
+    import pymablock.second_quantization as sq
+
     saved = (bd.solve_sylvester_diagonal, bd.matmul, bd.mul, bd.solve_sylvester_direct, bd.solve_sylvester_KPM, sla.eigsh)
+    saved_sq = sq.solve_sylvester_2nd_quant
 
     def wrap(orig):
         def factory(*a, **k):
@@ -175,6 +178,7 @@ def seams(env):
     bd.solve_sylvester_diagonal = wrap(saved[0])
     bd.solve_sylvester_direct = wrap(saved[3])
     bd.solve_sylvester_KPM = wrap(saved[4])
+    sq.solve_sylvester_2nd_quant = wrap(saved_sq)
     bd.matmul = env.mm
     bd.mul = env.mul
     sla.eigsh = seeded_eigsh
@@ -182,6 +186,7 @@ def seams(env):
         yield
     finally:
         (bd.solve_sylvester_diagonal, bd.matmul, bd.mul, bd.solve_sylvester_direct, bd.solve_sylvester_KPM, sla.eigsh) = saved
+        sq.solve_sylvester_2nd_quant = saved_sq
 
 
 def scipy_shim():
@@ -233,6 +238,35 @@ class Inputs:
                     if rg.random() < w.get("p_zero_block", 0.0):
                         self.absent.add((i, j, o))
                         self.absent.add((j, i, o))
+        if w["domain"] == "sq":
+            # second-quantised: two spin blocks with boson operators inside (1x1 sympy matrices), rational coefficients
+            import sympy
+            from sympy.physics.quantum import Dagger
+            from sympy.physics.quantum.boson import BosonOp
+
+            a = BosonOp("a")
+            num = Dagger(a) * a
+            Rq = lambda lo, hi: sympy.Rational(int(rg.integers(lo, hi)), int(rg.integers(2, 6)))  # noqa: E731
+            omega, delta = 1 + Rq(0, 4), Rq(1, 5) / 3
+            self.e = None
+            self.full = {}
+            self.blocks = {(0, 0, *self.zero_o): sympy.Matrix([[omega * num - delta]]),
+                           (1, 1, *self.zero_o): sympy.Matrix([[omega * num + delta]])}
+            for o in map(tuple, w["terms"]):
+                kind = int(rg.integers(0, 4))
+                g, k = Rq(1, 5), Rq(1, 5)
+                if kind in (0, 1, 3):
+                    self.blocks[(0, 1, *o)] = sympy.Matrix([[g * a]])
+                    self.blocks[(1, 0, *o)] = sympy.Matrix([[g * Dagger(a)]])
+                if kind in (1, 2):
+                    self.blocks[(int(rg.integers(0, 2)),) * 2 + o] = sympy.Matrix([[k * (a + Dagger(a))]])
+                if kind == 3:
+                    self.blocks[(0, 0, *o)] = sympy.Matrix([[k * num * num]])
+            self.vecs = None
+            self.masks = {}
+            self.tracer = False
+            self.sym = True
+            return
         self.tracer = w["domain"] == "tracer"
         if self.tracer:
             # exact, provenance-carrying values of a free *-algebra; one scalar element per block
@@ -1189,17 +1223,20 @@ class GraphProp:
     def gen_world(self, r, tier, profile):
         npert = r.choice([1, 1, 1, 2, 2, 3])
         nb = r.choice([1, 2, 2, 2, 3, 3, 4])
-        domain = r.choice(profile.get("domains", ["dense"] * 6 + ["sparse"] * 2 + ["sym"] + ["tracer"] * 2))
+        domain = r.choice(profile.get("domains", ["dense"] * 12 + ["sparse"] * 4 + ["sym"] * 2 + ["tracer"] * 4 + ["sq"]))
         if domain == "sym":
             nb = min(nb, 2)
             npert = 1
         if domain == "tracer":
             nb = min(nb, 3)
             npert = min(npert, 2)
+        if domain == "sq":
+            nb = 2
+            npert = min(npert, 2)
         sizes = [r.choice([1, 1, 2, 2, 3] if domain != "sym" else [1, 1, 2]) for _ in range(nb)]
         herm = r.random() < 0.65
         fmt = r.choice(profile.get("fmts", ["blocked"] * 5 + ["scalar_idx"] * 2 + ["scalar_vecs", "dict", "list"]))
-        if domain in ("sym", "tracer"):
+        if domain in ("sym", "tracer", "sq"):
             fmt = "blocked"
         if domain == "sparse" and fmt == "scalar_vecs":
             fmt = "scalar_idx"
@@ -1254,6 +1291,18 @@ class GraphProp:
                          "solver": "default", "chain": 0, "d0_herm": False}
             if domain == "sparse":
                 comps[-1]["fd"] = None
+        if domain == "sq":
+            w["cap"] = 2
+            w["sizes"] = [1, 1]
+            w["herm"] = True
+            w.pop("illposed", None)
+            w["internals"] = False
+            w["deg"] = False
+            for spec in comps:
+                spec["fd"] = None if isinstance(spec["fd"], dict) else spec["fd"]
+                spec["solver"] = "default"
+                if spec.get("chain") is not None:
+                    spec["fd"] = None
         if domain == "tracer":
             w["cap"] = 3 if npert == 1 else 2
             w["sizes"] = [1] * nb
